@@ -178,6 +178,11 @@ theorem accepted_prefix_step (e : Ep) (ev : Ev) : e.accepted <+: (step e ev).1.a
     · split
       · exact List.prefix_refl _
       · split <;> simp
+  | modulate raw =>
+    simp only []
+    split
+    · exact List.prefix_refl _
+    · split <;> exact List.prefix_refl _
 
 /-- no event but `pump` writes to the socket -/
 theorem accepted_step_nonpump (e : Ep) (ev : Ev) (h : ∀ n, ev ≠ .pump n) : (step e ev).1.accepted = e.accepted := by
@@ -221,6 +226,11 @@ theorem accepted_step_nonpump (e : Ep) (ev : Ev) (h : ∀ n, ev ≠ .pump n) : (
     · split
       · rfl
       · split <;> simp
+  | modulate raw =>
+    simp only []
+    split
+    · rfl
+    · split <;> rfl
 
 end Tcpcl
 end DtnVerif
